@@ -19,7 +19,7 @@ type Comp struct {
 	Path string
 	Sort string
 	GT   types.Type // Go type of the leaf (for range facts), nil for synthetic (#base etc.)
-	Kind string     // "int","bool","ref","base","len","tag","opaque","strbase"
+	Kind string     // "int","bool","ref","base","bbase","len","tag","opaque","strbase"
 }
 
 type Val struct {
@@ -69,7 +69,12 @@ func (g *Gen) layout(t types.Type) []Comp {
 	case *types.Pointer:
 		out = []Comp{{"", SInt, nil, "ref"}}
 	case *types.Slice:
-		out = []Comp{{"#base", SInt, nil, "base"}, {"#off", g.intRep(), nil, "len"}, {"#len", g.intRep(), nil, "len"}, {"#cap", g.intRep(), nil, "len"}}
+		bk := "base"
+		if b, ok := u.Elem().Underlying().(*types.Basic); ok && b.Kind() == types.Uint8 {
+			// a []byte may be an (unsafe) view of a string's memory, whose bases are <= 0: no sign assumption
+			bk = "bbase"
+		}
+		out = []Comp{{"#base", SInt, nil, bk}, {"#off", g.intRep(), nil, "len"}, {"#len", g.intRep(), nil, "len"}, {"#cap", g.intRep(), nil, "len"}}
 	case *types.Interface:
 		out = []Comp{{"#tag", SInt, nil, "tag"}, {"#ref", SInt, nil, "ref"}}
 	case *types.Map, *types.Chan, *types.Signature:
@@ -172,6 +177,8 @@ type State struct {
 	// hv: family-name prefixes havocked by a callee ("modifies family X") in the history of this state. A family
 	// under such a prefix that is first touched afterwards must not alias its entry version.
 	hv []string
+	// gv: current values of the mutable ghosts (`ghost var`); a missing entry means "still the entry value"
+	gv map[string]Val
 }
 
 type heapParams struct {
@@ -186,6 +193,12 @@ func (s *State) clone() *State {
 	}
 	for k, v := range s.heap {
 		n.heap[k] = v
+	}
+	if len(s.gv) > 0 {
+		n.gv = map[string]Val{}
+		for k, v := range s.gv {
+			n.gv[k] = v
+		}
 	}
 	return n
 }
@@ -235,6 +248,7 @@ type Gen struct {
 	specHeap map[string]*heapParams
 	famRefLeaf map[string]bool
 	fnGhosts   map[string]*fnGhost
+	gvDef      map[string]Val // entry values of the mutable ghosts
 	refAxDone  map[string]bool
 	assumptions []string
 	curPos  token.Pos
